@@ -130,6 +130,8 @@ type Knobs struct {
 	SkipGenesisInvariants bool `json:"skip_genesis_invariants,omitempty"` // --x-crisis-skip-assert-invariants
 	// ManyDenoms: that many extra denominations (sorting before the native one) in the bank supply
 	ManyDenoms int `json:"many_denoms,omitempty"`
+	// DenomsAfterNative: a few more denominations that sort after the native one
+	DenomsAfterNative bool `json:"denoms_after_native,omitempty"`
 	// ManyRegs: that many WRKChains and BEACONs (ids 1..n, no records, an owner nobody holds the key
 	// of) already in the genesis document
 	ManyRegs int `json:"many_regs,omitempty"`
@@ -241,6 +243,11 @@ func BuildGenesis(k *Knobs, actors []*Actor) (json.RawMessage, []abci.ValidatorU
 		case KindPeriodicVesting:
 			p := vestingtypes.Periods{{Length: 86400 * 30, Amount: sdk.NewCoins(sdk.NewCoin(Native, bal.QuoRaw(4)))}, {Length: 86400 * 300, Amount: sdk.NewCoins(sdk.NewCoin(Native, bal.QuoRaw(2).Sub(bal.QuoRaw(4))))}}
 			ga = vestingtypes.NewPeriodicVestingAccount(base, half, genTime.Unix(), p)
+		}
+		if a.Idx == 0 && k.DenomsAfterNative {
+			for i, d := range []string{"uatom", "uosmo", "uusdc", "zeta"} {
+				coins = coins.Add(sdk.NewInt64Coin(d, int64(1000+i)))
+			}
 		}
 		if a.Idx == 0 && k.ManyDenoms > 0 {
 			for i := 0; i < k.ManyDenoms; i++ {
